@@ -93,6 +93,8 @@ class DetectVarNames( ast.NodeVisitor ):
         elif isinstance( v, ast.Call ): # int(x)
           for x in v.args:
             self.visit(x)
+        elif isinstance( v, (ast.Subscript, ast.BinOp, ast.UnaryOp, ast.Compare, ast.IfExp) ):
+          self.visit( v ) # computed index, e.g. s.x[ s.sel ^ 1 ] or s.x[ s.sel[0:2] ]
 
         num.append(n)
 
@@ -195,6 +197,8 @@ class DetectVarNames( ast.NodeVisitor ):
         elif isinstance( v, ast.Call ): # int(x)
           for x in v.args:
             self.visit(x)
+        elif isinstance( v, (ast.Subscript, ast.BinOp, ast.UnaryOp, ast.Compare, ast.IfExp) ):
+          self.visit( v ) # computed index, e.g. s.x[ s.sel ^ 1 ] or s.x[ s.sel[0:2] ]
         elif isinstance( v, ast.Slice ): # s.sel, may be constant
           raise TypeError( f"Having slice in the middle such as s.x[1][1:2][1][2] "
                            f"doesn't make sense at line {input_node.lineno} of "
@@ -269,7 +273,10 @@ class DetectReadsWritesCalls( DetectVarNames ):
 
   def visit_Subscript( self, node ): # s.a.b[0:3] or s.a.b[0]
     obj_name, nodelist = self._get_full_name( node )
-    if not obj_name:  return
+    if not obj_name:
+      # e.g. concat( s.a, s.b )[4:12]: the signals are read inside
+      self.generic_visit( node )
+      return
 
     pair = (obj_name, nodelist, self.current_op)
 
@@ -284,12 +291,14 @@ class DetectReadsWritesCalls( DetectVarNames ):
 
   def visit_Call( self, node ):
     obj_name, nodelist = self._get_full_name( node.func )
-    if not obj_name:  return
+    if obj_name:
+      self.calls.append( (obj_name, nodelist, None) )
 
-    self.calls.append( (obj_name, nodelist, None) )
-
+    # Signals may be read in positional and in keyword arguments
     for x in node.args:
       self.visit( x )
+    for x in node.keywords:
+      self.visit( x.value )
 
   def visit_For( self, node ):
     self.current_op = 'for'
